@@ -3,6 +3,7 @@ package oracle
 import (
 	"errors"
 	"math/big"
+	"sync"
 	"sync/atomic"
 )
 
@@ -151,19 +152,21 @@ func OnCurve(p *Pt) bool { return Secp.OnCurve(p) }
 
 // gPow[i] = 2^i * G, built lazily once (oracle-side speed-up for k*G;
 // cross-checked against Mul in the self-test).
-var gPow []*Pt
-var gPowJ []*jac
+var (
+	gPowOnce sync.Once
+	gPowTab  []*Pt
+)
 
-func init() {
-	gPow = make([]*Pt, 257)
-	gPow[0] = G()
-	for i := 1; i <= 256; i++ {
-		gPow[i] = Secp.Add(gPow[i-1], gPow[i-1])
-	}
-	gPowJ = make([]*jac, 257)
-	for i := range gPow {
-		gPowJ[i] = toJac(gPow[i])
-	}
+func gPowTable() []*Pt {
+	gPowOnce.Do(func() {
+		t := make([]*Pt, 257)
+		t[0] = G()
+		for i := 1; i <= 256; i++ {
+			t[i] = Secp.Add(t[i-1], t[i-1])
+		}
+		gPowTab = t
+	})
+	return gPowTab
 }
 
 // MulG returns k*G for k >= 0, k < 2^257.
@@ -172,6 +175,7 @@ func MulG(k *big.Int) *Pt {
 		return Mul(k, G())
 	}
 	r := Infinity()
+	gPow := gPowTable()
 	for i := 0; i < k.BitLen(); i++ {
 		if k.Bit(i) == 1 {
 			r = Secp.Add(r, gPow[i])
@@ -183,6 +187,7 @@ func MulG(k *big.Int) *Pt {
 // MulGSlow is the affine reference for MulG.
 func MulGSlow(k *big.Int) *Pt {
 	r := Infinity()
+	gPow := gPowTable()
 	for i := 0; i < k.BitLen(); i++ {
 		if k.Bit(i) == 1 {
 			r = Secp.Add(r, gPow[i])
